@@ -123,6 +123,8 @@ def timer_cases(rng, n):
                 return "D%d" % i
             if r < 0.80:
                 return "N"
+            if r < 0.83:
+                return "J%d" % rng.choice([1, 2**31 - 1, 2**31, 2**32 - 1, 2**32, 2**32 + 1, 2**62])
             if top:
                 return rng.choice(["A%d" % rng.choice([0, 1, 2, 3, 5, 10, 50]), "R", "R"])
             return "A%d" % rng.choice([0, 1, 3, 10])
